@@ -7,7 +7,7 @@ for i in $(seq 1 $N); do
   (cd $W && git checkout -q -- sigc++ && git apply OUT/patch$i.diff) || { echo "== patch$i: apply failed"; continue; }
   echo "== patch$i: $(cd $W && git diff --stat -- sigc++ | tail -1)"
   for c in $CHECKS; do
-    out=$(cd /verif && VERIF_REPO=$W ./check $c 2>&1); rc=$?
+    out=$(cd ${VCOPY:-/verif} && VERIF_REPO=$W ./check $c 2>&1); rc=$?
     [ $rc -ne 0 ] && echo "  [$c rc=$rc] $(echo "$out" | grep -E 'VIOLATION|rror' | head -2 | cut -c1-220)"
   done
   (cd $W && git checkout -q -- sigc++)
